@@ -2,8 +2,9 @@
 
 Lean: Model/Channel.lean (one endpoint of asyncssh/channel.py SSHChannel), Model/ChannelSys.lean (two endpoints, one
 FIFO link per direction, N channels multiplexed), Model/ChannelCodec.lean (UTF-8 layer); Props/C07.lean
-(stream_inv, delivered_is_prefix, eof_only_if_signalled, eof_after_all_data, eof_last, eof_delivered_partial,
-eof_lost_when_close_overtakes, channels_independent_prop, utf8_split_ok, text_delivered_is_text_written, ...).
+(stream_inv, delivered_is_prefix, eof_only_if_signalled, eof_after_all_data, eof_last, eof_delivered_if_sent,
+eof_lost_when_close_overtakes_old (witness for the code before fix 024eb80), eof_not_sent_when_close_overrides,
+channels_independent_prop, utf8_split_ok, text_delivered_is_text_written, ...).
 Correspondence: a real SSHClientConnection / SSHServerConnection pair over the in-memory hub (manual delivery, one
 SSH packet at a time, packet tap), raw SSHClientSession / SSHServerSession callback API, scripted by the seeded PRNG:
 writes of 0..3 windows on stdin/stdout/stderr, write_eof, close, pause/resume, pausing from inside data_received,
@@ -24,6 +25,7 @@ from typing import Any, Dict, List
 import vlib
 from vlib import Ctx, CorrResult, OracleResult, Failure, Disagreement, Hist, hx
 
+import translate as T
 from props import _channel_gen as G
 from props import _channel_lib as L
 from props import _channel_oracle as O
@@ -35,11 +37,12 @@ MANIFEST = {
             'delivered ++ receive buffer ++ in flight ++ send buffer = written as byte streams tagged with their datatype '
             '(stream_inv: complete, ordered within and across datatypes, no loss, no duplication), delivered is always a '
             'prefix of written, eof_received only if the sender went through write_eof, only after all data, once and '
-            'last; UTF-8 decoding independent of packet boundaries (byte-exact incremental decoder, round trip for every '
+            'last, and always once the EOF message was sent (also when CLOSE overtakes it: fix 024eb80; the old '
+            'behaviour is kept as a witness theorem about the old functions); UTF-8 decoding independent of packet boundaries (byte-exact incremental decoder, round trip for every '
             'scalar value); per-channel projection of a multiplexed run. The model is tied to the code by the translator '
             '(send-loop arithmetic from the AST) and by a differential run against two real endpoints driven packet by '
-            'packet. "EOF if signalled" is false when CLOSE overtakes a pending EOF (witness proved, replayed on the real '
-            'callback API).',
+            'packet. Remaining gap, proved as a witness and reported by the oracle: write_eof() followed by close() while '
+            'data waits for window never sends the EOF message.',
     'note': 'session objects use the raw callback API; stream.py is only the consumer; non-UTF-8 codecs are trusted to '
             'be byte-wise transducers (chunk independence then holds by construction); pause_writing/resume_writing '
             'callbacks and channel requests are not modelled; abort() is not modelled',
@@ -57,7 +60,15 @@ ASSUMPTIONS = ['the receiving application has not called close() (after that, un
 
 
 def translate(ctx: Ctx) -> Dict[str, Any]:
-    info = G.generate('C07')
+    try:
+        info = G.generate('C07')
+    except T.Untranslatable as e:
+        # the code no longer has the shape the translator reads: the generated file keeps its last content and
+        # the tie for these expressions falls back to the correspondence run (DESIGN 2.1, T1 fallback)
+        ctx.translator_fallbacks.append(f'channel arithmetic: {e}')
+        return {'gen_file': 'Gen/C07.lean', 'fallback': str(e)}
+    for fb in info.get('fallbacks', []):
+        ctx.translator_fallbacks.append('channel arithmetic, baseline text used: ' + fb)
     bad = G.self_test('C07', info, ctx.subrng('selftest'))
     if bad:
         raise RuntimeError('translated expressions disagree with the Python originals: ' + '; '.join(bad[:3]))
@@ -196,7 +207,12 @@ def f13_cases() -> List[Dict[str, Any]]:
     unpaused = {'profile': 'directed', 'chans': [dict(base)], 'ops': [
         ['app', 'b', 0, 'write', None, '010203'], ['app', 'b', 0, 'eof'], ['app', 'b', 0, 'close'],
         ['deliver', 'a'], ['deliver', 'a'], ['deliver', 'a'], ['deliver', 'b']]}
-    return [paused, starting, unpaused]
+    nodata = {'profile': 'directed', 'chans': [dict(base, pausedA='s')], 'ops': [
+        ['app', 'b', 0, 'eof'], ['app', 'b', 0, 'close'], ['burst', 2], ['deliver', 'b']]}
+    # sender side: write_eof() then close() while data still waits for window (client window 4)
+    unsent = {'profile': 'directed', 'chans': [dict(base, wa=4)], 'ops': [
+        ['app', 'b', 0, 'write', None, '0102030405060708'], ['app', 'b', 0, 'eof'], ['app', 'b', 0, 'close']]}
+    return [paused, starting, unpaused, nodata, unsent]
 
 
 def oracle(ctx: Ctx) -> OracleResult:
@@ -220,6 +236,7 @@ def oracle(ctx: Ctx) -> OracleResult:
                                'drained' if real.get('drained') else 'error' if real.get('error') else 'other'))
         fails = O.check_c07(case, real)
         for f in fails:
+            hist.hit('failure:' + f.signature)
             if f.signature not in seen:
                 seen.add(f.signature)
                 f.replay['case'] = shrink(f.replay['case'], f.signature)
